@@ -167,6 +167,15 @@ theorem determined (stmts : List Stmt) (e : AEnv) (s : State) (h : Agree e s) (m
 
 theorem agree_nil (s : State) : Agree [] s := by intro m v h; cases h
 
+/-- a member the analysis determines *from nothing* has the same value after the statements whatever the state before
+them was: the statements erase its history (used for the re-initialisers of pooled objects) -/
+theorem history_erased (stmts : List Stmt) (m : Nat) (h : (lk m (aRun stmts [])).isSome = true) (s1 s2 : State) :
+    run stmts s1 m = run stmts s2 m := by
+  cases hv : lk m (aRun stmts []) with
+  | none => rw [hv] at h; cases h
+  | some v =>
+    rw [determined stmts [] s1 (agree_nil s1) m v hv, determined stmts [] s2 (agree_nil s2) m v hv]
+
 /-! ### frame: members no statement targets keep their value -/
 
 theorem exec_frame (s : State) (st : Stmt) (m : Nat) (h : m ∉ touchedBy st) : exec s st m = s m := by
